@@ -223,6 +223,21 @@ def corpus(tier, seed):
                 continue
             inputs.append({"op": "eq", "L": bl, "R": m, "variant": "ZeroWeight"})
             inputs.append({"op": "condense", "orders": orders_of(rng, bl), "variant": "ZeroWeightCondense"})
+    # --- cross-paired contents: the same rankings and the same score sets with the same weights, but paired the other way round
+    #     (equal ranking marginals, equal score marginals, different profiles)
+    rk_pool = [[["A"], ["B"]], [["B"], ["A"]], [["A", "B"]], [["C"]], [["B"], ["C"], ["A"]]]
+    sc_pool = [[["A", [2, 1]]], [["B", [1, 1]]], [["A", [1, 2]], ["C", [1, 1]]], [["C", [3, 1]]]]
+    for _ in range(60 if q else 1500):
+        r1, r2 = rng.sample(rk_pool, 2)
+        s1, s2 = rng.sample(sc_pool, 2)
+        w = rng.choice(W3)
+        extra = [decorate(rng, rng.choice(c3), rng.choice(W3)) for _ in range(rng.randint(0, 2))]
+        L = [decorate(rng, {"r": r1, "s": s1}, w), decorate(rng, {"r": r2, "s": s2}, w)] + extra
+        R = [decorate(rng, {"r": r1, "s": s2}, w), decorate(rng, {"r": r2, "s": s1}, w)] + extra
+        rng.shuffle(L)
+        rng.shuffle(R)
+        inputs.append({"op": "eq", "L": L, "R": R})
+        inputs.append({"op": "condense", "orders": orders_of(rng, L + R)})
     # --- exactness of stored numbers
     kinds = ["int", "frac", "float"]
 
@@ -292,6 +307,33 @@ def nontrivial_key(t):
     return None
 
 
+def wide_exact(res, tier, seed):
+    """weights and scores whose denominator is small (<= 10^6, the promised range) but whose value is beyond TLC's integers and beyond the
+    53 bits of a double: stored unchanged (python_compared)"""
+    from ..common import load_votekit
+    load_votekit()
+    from votekit import Ballot
+    rng = random.Random(1111 + seed)
+    n = 0
+    for _ in range(200 if tier == "quick" else 4000):
+        den = rng.choice([2, 3, 7, 1000, 999983, 10**6])
+        big = rng.choice([2**53, 2**54, 10**16, 3 * 10**6, 10**9, 2**62])
+        w = F(big * den + rng.randint(1, den - 1), den)
+        sc = F(rng.choice([2**53, 10**12]) * den + rng.randint(1, den - 1), den)
+        n += 1
+        try:
+            b = Ballot(ranking=(frozenset({"A"}),), weight=w, scores={"A": sc} if rng.random() < 0.5 else None)
+            bad = b.weight != w or (b.scores is not None and b.scores.get("A") != sc)
+        except Exception as ex:  # noqa
+            res.violation("Ballot:WideExact(py):Error", "%s for weight %s" % (type(ex).__name__, w), {"weight": str(w), "score": str(sc)})
+            continue
+        if bad:
+            res.violation("Ballot:WideExact(py)", "a weight / score with denominator %d is not stored unchanged: %s -> %s" % (den, w, b.weight),
+                          {"weight": str(w), "score": str(sc), "stored_weight": str(b.weight), "stored_scores": str(b.scores)})
+    res.notes["python_compared"] = n
+    res.notes["python_compared_note"] = "weights / scores with denominators <= 10^6 and values up to 2^62: stored unchanged"
+
+
 def run(tier, seed, replay=None):
     from .. import adt
     res = Result(PID, tier, seed)
@@ -322,6 +364,8 @@ def run(tier, seed, replay=None):
         if k:
             res.nontrivial.add(k)
     judge_calls(res, PID, "ProfileADTTrace", traces, sig_of=sig_of, what="Ballot/PreferenceProfile operation disagrees with the value model")
+    if not replay:
+        wide_exact(res, tier, seed)
     res.exhaustive = False
     ops = {}
     for t in traces:
